@@ -1,5 +1,7 @@
 SPECIFICATION Spec
 CONSTANTS
+  MINNODES = 0
+  MAXSTACK = 99
   BUDGET = 3
   FUEL = 300
   MAXINT = 100000
